@@ -993,7 +993,7 @@ func main() {
 	} else if c.Expired() {
 		c.NotExhaustive("family (h) concurrent parsing not run: budget used up")
 	} else {
-		pool.Run(concShards(quick), pool.Options{HangTimeout: 10 * time.Minute}, func(si int, rb json.RawMessage) {
+		pool.Run(concShards(quick), pool.Options{HangTimeout: 10 * time.Minute, FreshProcess: true}, func(si int, rb json.RawMessage) {
 			var r concRec
 			if json.Unmarshal(rb, &r) != nil {
 				return
